@@ -7,8 +7,9 @@
    of length 32. *)
 From Coq Require Import List NArith Bool.
 From V.gen Require Consts PeerIdSites.
-From V.common Require Import Varint Protobuf.
-From V.C18 Require Import Model Proofs KeyProofs.
+From V.common Require Import Varint Protobuf Sha256.
+From V.C18 Require Import Model Proofs KeyProofs Addr.
+From V.C19 Require Import Formats.
 Import ListNotations.
 Open Scope N_scope.
 
@@ -510,3 +511,89 @@ Example C18_example_round3 :
   /\ of_bytes_strict witness_noncanonical = None
   /\ of_text_err [48] = 1 /\ of_text_err [50] = 2.
 Proof. vm_compute. repeat split. Qed.
+
+(* ---- peer ids inside general binary multiaddresses; the address book's constructors ---- *)
+(* (the binary multiaddress parser `maddr_parse` is the model of coq/C19/Formats.v: multiaddr
+   0.18.2's protocol table, whose /p2p component calls this property's `of_bytes`) *)
+Theorem C18_multiaddr_roundtrip :
+  forall cs, forallb comp_ok cs = true -> maddr_parse (enc_maddr cs) = Ok cs.
+Proof. exact maddr_parse_enc. Qed.
+Print Assumptions C18_multiaddr_roundtrip.
+
+(* any address ending with /p2p/<id>, whatever precedes it: try_from_multiaddr gives the id back *)
+Theorem C18_multiaddr_trailing_p2p :
+  forall cs p, forallb comp_ok cs = true -> valid p = true ->
+    of_maddr (enc_maddr (cs ++ [(P2P, to_bytes p)])) = Some p.
+Proof. exact of_maddr_trailing_p2p. Qed.
+Print Assumptions C18_multiaddr_trailing_p2p.
+
+Theorem C18_multiaddr_id_valid :
+  forall b p, of_maddr b = Some p -> valid p = true.
+Proof. exact of_maddr_valid. Qed.
+Print Assumptions C18_multiaddr_id_valid.
+
+(* the one-component parser used in the canonicality theorems is the general one on that input *)
+Theorem C18_component_is_multiaddr :
+  forall p, valid p = true -> of_maddr (to_component p) = Some p /\ of_component (to_component p) = Some p.
+Proof. exact of_component_is_of_maddr. Qed.
+Print Assumptions C18_component_is_multiaddr.
+
+(* a parsed address whose last component is /p2p always yields an id (multiaddr built that component
+   with the reference's from_bytes; litep2p's from_multihash admits the same set) *)
+Theorem C18_parsed_p2p_has_id :
+  forall b cs, maddr_parse b = Ok cs -> ends_with_p2p cs = true -> exists p, of_maddr b = Some p.
+Proof. exact parsed_p2p_has_id. Qed.
+Print Assumptions C18_parsed_p2p_has_id.
+
+(* src/transport/manager/address.rs, AddressRecord::new on ANY parsed address and any valid peer:
+   the record's address parses, ends with /p2p and yields an id — the given peer when the address
+   did not name one (the bytes of `/p2p/<peer>` are appended through the infallible conversion),
+   the one it already named otherwise (address kept byte for byte) *)
+Theorem C18_address_record_new :
+  forall p b cs, maddr_parse b = Ok cs -> valid p = true ->
+    exists rb, record_new_bytes p b = Some rb /\ maddr_parse rb = Ok (record_new p cs) /\
+      (ends_with_p2p cs = false -> of_maddr rb = Some p) /\
+      (ends_with_p2p cs = true -> rb = b /\ exists q, of_maddr rb = Some q).
+Proof. exact record_new_bytes_spec. Qed.
+Print Assumptions C18_address_record_new.
+
+Theorem C18_address_record_components :
+  forall p cs, forallb comp_ok cs = true -> valid p = true ->
+    ends_with_p2p (record_new p cs) = true /\
+    forallb comp_ok (record_new p cs) = true /\
+    (ends_with_p2p cs = false -> of_maddr (enc_maddr (record_new p cs)) = Some p) /\
+    (ends_with_p2p cs = true -> record_new p cs = cs).
+Proof. exact record_new_spec. Qed.
+Print Assumptions C18_address_record_components.
+
+(* non-vacuity: /ip4/1.2.3.4/tcp/8080 gets /p2p/<12 01 07> appended; an address ending in
+   /p2p/<12 01 07> is kept for another peer; from_multiaddr tells the two apart *)
+Example C18_example_address_record :
+  let a := [4; 1; 2; 3; 4; 6; 31; 144] in
+  let p := mkPid 18 [7] in
+  record_new_bytes p a = Some (a ++ [165; 3; 3; 18; 1; 7])
+  /\ of_maddr (a ++ [165; 3; 3; 18; 1; 7]) = Some p
+  /\ record_new_bytes (mkPid 0 [9]) (a ++ [165; 3; 3; 18; 1; 7]) = Some (a ++ [165; 3; 3; 18; 1; 7])
+  /\ of_maddr a = None
+  /\ of_maddr (a ++ [165; 3; 3; 18; 1; 7] ++ [6; 31; 144]) = None.
+Proof. vm_compute. repeat split. Qed.
+
+(* ---- the first sentence of the property in closed form, with SHA-256 itself (common/Sha256.v:
+   executable FIPS 180-4, checked on the NIST vectors and differentially on every run) ---- *)
+Theorem C18_derive_sha256 :
+  forall enc, derive sha256 enc = if len enc <=? 42 then mkPid 0 enc else mkPid 18 (sha256 enc).
+Proof. exact derive_sha256_spec. Qed.
+Print Assumptions C18_derive_sha256.
+
+(* every derived id is a valid id (32-byte digest, bytes) and goes round through bytes, text and
+   the multiaddress component *)
+Theorem C18_derived_roundtrip :
+  forall enc, bytes_ok enc = true ->
+    valid (derive sha256 enc) = true /\
+    of_bytes (to_bytes (derive sha256 enc)) = Some (derive sha256 enc) /\
+    of_text (to_text (derive sha256 enc)) = Some (derive sha256 enc) /\
+    of_component (to_component (derive sha256 enc)) = Some (derive sha256 enc).
+Proof.
+  intros enc B. split; [exact (derive_sha256_valid enc B) | exact (derive_sha256_roundtrip enc B)].
+Qed.
+Print Assumptions C18_derived_roundtrip.
